@@ -4480,8 +4480,12 @@ class _OverrideBinds(Grouping[_T]):
         replaces_params: Sequence[BindParameter[Any]],
     ):
         self.element = element
+        # effective_value: a parameter whose value comes from a callable
+        # (e.g. a many-to-one compared to an object in loader criteria) has
+        # no plain .value
         self.translate = {
-            k.key: v.value for k, v in zip(replaces_params, bindparams)
+            k.key: v.effective_value
+            for k, v in zip(replaces_params, bindparams)
         }
 
     def _gen_cache_key(
